@@ -141,5 +141,6 @@ pub fn run(ctx: &Ctx) -> Result<()> {
 		for j in (0..n_ops).rev() { let p = format!("{:?}", ops[j].get_parameters()); match dbg[at..].find(&p) { Some(i) => at += i + p.len(), None => { ok = false; break; } } }
 		if !ok { col.violation("operation-order", &text(n_ops), "", &format!("the operation built from {:?} does not nest the operations in written order (the advertised parameters of its prefixes do not appear outermost-to-innermost)", text(n_ops))); }
 	}
+	crate::pipeline::arg_lines_into(ctx, &mut col)?;
 	col.finish()
 }
